@@ -20,6 +20,11 @@ class VErr(Exception):
         self.n = n
 
 
+class CleanupFailed(BaseException):
+    """raised by the suspended generator when it is closed (not an Exception: nothing in asynq may swallow it silently
+    and still skip the completion notification)"""
+
+
 class B(BatchBase):
     def __init__(self, st):
         BatchBase.__init__(self)
@@ -77,7 +82,7 @@ def make(kind, st):
             try:
                 yield DebugBatchItem("c10-susp", 1)
             except GeneratorExit:
-                raise RuntimeError("cleanup of the suspended generator failed")
+                raise CleanupFailed("cleanup of the suspended generator failed")
             return 5
         return h.asynq()
     b = B(st)
@@ -149,7 +154,7 @@ def run_history(kind, ops):
                 r = ["ok"]
             except FutureIsAlreadyComputed:
                 r = ["already"]
-            except Exception as e:
+            except BaseException as e:
                 r = ["raised", code(e)]
         elif op == "reset_unsafe":
             obj.reset_unsafe()
